@@ -485,7 +485,7 @@ func (e *Exec) visitInstr(fr *frame, instr ssa.Instruction) continuation {
 			fr.rtPanic("invalid memory address or nil pointer dereference (store)")
 		}
 		e.raceWrite(fr, p)
-		*p = copyVal(fr.get(instr.Val))
+		assignInto(p, fr.get(instr.Val))
 
 	case *ssa.If:
 		c := fr.get(instr.Cond).(*Term)
